@@ -37,7 +37,7 @@ Local Open Scope bool_scope.
 type xStep struct {
 	ID      int      `json:"id"`
 	Fan     int      `json:"fan"`            // how many objects its list field returns (children steps fan out over them)
-	Fail    string   `json:"fail,omitempty"` // "" | transport | partial
+	Fail    string   `json:"fail,omitempty"` // "" | transport | partial | shape
 	FailIDs []string `json:"fail_ids,omitempty"`
 	Kids    []*xStep `json:"kids,omitempty"`
 	field   string
@@ -71,7 +71,7 @@ func realise(s *xStep, objID string, counter *int, fails func(s *xStep, obj stri
 	*counter++
 	f := fails(s, objID)
 	n.Fails = f != ""
-	if f == "transport" {
+	if noData(f) {
 		return n
 	}
 	for _, k := range s.Kids {
@@ -81,6 +81,11 @@ func realise(s *xStep, objID string, counter *int, fails func(s *xStep, obj stri
 	}
 	return n
 }
+
+// a failure that delivers nothing to stitch and starts no dependent: a transport error, or an
+// answer in which the list of the LAST dependent has the wrong shape (the insertion points of
+// the earlier dependents are found, then the search for the last one's fails)
+func noData(f string) bool { return f == "transport" || f == "shape" }
 
 func stepFails(s *xStep, obj string) string {
 	if s.Fail == "" {
@@ -259,6 +264,10 @@ func (q *xQueryer) Query(ctx context.Context, in *graphql.QueryInput, recv inter
 		}
 		res[fmt.Sprintf("%s_%d", q.step.field, ki)] = objs
 	}
+	if fail == "shape" && len(q.step.Kids) > 0 {
+		// (the executor quotes the value in its error: that is how the error names its node)
+		res[fmt.Sprintf("%s_%d", q.step.field, len(q.step.Kids)-1)] = fmt.Sprintf("fail %d", n)
+	}
 	out := recv.(*map[string]interface{})
 	if q.root {
 		*out = res
@@ -316,6 +325,9 @@ func genXStep(r *rand.Rand, id *int, depth int, bigFan bool) *xStep {
 		for i := 0; i < nk; i++ {
 			s.Kids = append(s.Kids, genXStep(r, id, depth-1, bigFan))
 		}
+	}
+	if s.Fail == "" && len(s.Kids) > 0 && r.Intn(100) < 12 {
+		s.Fail = "shape"
 	}
 	return s
 }
@@ -501,7 +513,7 @@ func runExec(cfg *runCfg, prop string) error {
 			counter++
 			f := stepFails(s, obj)
 			nd.Fails = f != ""
-			if f == "transport" {
+			if noData(f) {
 				return nd
 			}
 			for ki, k := range s.Kids {
@@ -516,7 +528,7 @@ func runExec(cfg *runCfg, prop string) error {
 		failedRoots := []int{}
 		for _, rs := range cs.Plan.Roots {
 			t := number(rs, "root")
-			if stepFails(rs, "root") == "transport" {
+			if noData(stepFails(rs, "root")) {
 				failedRoots = append(failedRoots, t.N)
 			}
 			roots = append(roots, t)
